@@ -65,6 +65,20 @@ LoFramesWellFormed(c, T) ==
                             /\ \A f \in 1..T : Len(c.tys[f]) = Len(c.types)
 
 (***************************************************************************)
+(* Unwrapped coordinates.  Positions are defined up to whole cell vectors  *)
+(* along the periodic axes (unwrapped xu/yu/zu columns, particles that     *)
+(* crossed the box several times): displacing particle i by sum_k n(i,k)   *)
+(* H[k] over the periodic axes k is the same periodic system, and the      *)
+(* minimum-image vectors - hence every order parameter - do not change,    *)
+(* however many cell vectors apart the raw coordinates are.                *)
+(***************************************************************************)
+LoUnwrap(pos, H, ppp, NN(_, _)) ==
+  [i \in 1..Len(pos) |-> VAdd(pos[i], VecMat([k \in 1..Len(H) |-> IF ppp[k] = 1 THEN NN(i, k) ELSE 0], H))]
+LoUnwrapInvariant(H, ppp, pos, pos0) ==
+  /\ LoTable(H, ppp, pos) = LoTable(H, ppp, pos0)
+  /\ LoTieTable(H, ppp, pos) = LoTieTable(H, ppp, pos0)
+
+(***************************************************************************)
 (* Neighbour files as the routines receive them: per frame a sequence of   *)
 (* rows [id, list] in ANY order (the reader, property C05, files a row     *)
 (* under the id of its first column) and delivers the first min(cn, Nmax)  *)
